@@ -71,6 +71,19 @@ def fn_ranges(text):
             continue
         try:
             c = match_close(s.m, j)
+            # a brace group inside a contract clause (`ensures match x { .. },`, `requires ({ .. }),`) is not the body: the body is
+            # the first depth-0 group that is not followed by `,` / an operator continuing the clause
+            while True:
+                k = c + 1
+                while k < len(s.m) and s.m[k] in ' \t\r\n':
+                    k += 1
+                if k < len(s.m) and (s.m[k] == ',' or s.m[k:k + 2] in ('&&', '||', '==') or s.m[k] == ')'):
+                    j2 = depth0_find(s.m, k, len(s.m), '{;')
+                    if j2 < 0 or s.m[j2] == ';':
+                        break
+                    j, c = j2, match_close(s.m, j2)
+                    continue
+                break
         except ExtractError:
             continue
         name = mm.group(1)
